@@ -5,87 +5,58 @@ From Apko Require Import Base.Prelude Model.Caches Spec.CachesSpec Proofs.Caches
 From Apko Require Model.Version Model.Resolver.
 Open Scope string_scope. Open Scope list_scope.
 
-(* ---- no install_if anywhere: the schedules are irrelevant ------------------------ *)
-Lemma iif_visit_nil : forall R key st, Resolver.r_iif R = [] -> Resolver.iif_visit R key st = st.
-Proof.
-  intros R key [deps added] H. unfold Resolver.iif_visit. destruct (Resolver.alookup key added); [|reflexivity].
-  rewrite H. reflexivity.
-Qed.
-
-Lemma iif_loop_nil : forall R sched l added, Resolver.r_iif R = [] -> Resolver.iif_loop R sched l added = l.
-Proof.
-  intros R sched l added H. unfold Resolver.iif_loop.
-  assert (E : fold_left (fun st key => Resolver.iif_visit R key st) sched (l, added) = (l, added)).
-  { induction sched as [|k sched IH]; [reflexivity|]. cbn [fold_left]. rewrite iif_visit_nil by exact H. exact IH. }
-  rewrite E. reflexivity.
-Qed.
-
-Lemma get_pkg_nil : forall R w s1 s2 dq sel ex, Resolver.r_iif R = [] ->
-  Resolver.get_pkg R w s1 dq sel ex = Resolver.get_pkg R w s2 dq sel ex.
-Proof.
-  intros R w s1 s2 dq sel ex H. unfold Resolver.get_pkg.
-  destruct (Resolver.get_pkg_core R w dq sel ex) as [[[[[dq' sel'] i] l] added]| | |]; cbn [rbind]; try reflexivity.
-  rewrite !iif_loop_nil by exact H. reflexivity.
-Qed.
-
-Lemma phase2_nil : forall R, Resolver.r_iif R = [] -> forall ws s1 s2 dq sel acc,
-  Resolver.phase2 R ws s1 dq sel acc = Resolver.phase2 R ws s2 dq sel acc.
-Proof.
-  intros R H. induction ws as [|w ws IH]; intros s1 s2 dq sel acc; [reflexivity|].
-  cbn [Resolver.phase2]. rewrite (get_pkg_nil R w (hd [] s1) (hd [] s2)) by exact H.
-  destruct (Resolver.get_pkg R w (hd [] s2) dq sel (snd acc)) as [[[[dq' sel'] i] deps]| | |]; cbn [rbind]; try reflexivity.
-  apply IH.
-Qed.
-
-Lemma order_deterministic_without_install_if : forall U world dq0 s1 s2,
-  Resolver.r_iif (Resolver.new_resolver U) = [] ->
-  Resolver.resolve U world dq0 s1 = Resolver.resolve U world dq0 s2.
-Proof.
-  intros U world dq0 s1 s2 H. unfold Resolver.resolve, Resolver.resolve_with.
-  destruct (Resolver.constrain _ _ dq0) as [dq1| | |]; cbn [rbind]; try reflexivity.
-  destruct (Resolver.phase1 _ _ _ dq1 []) as [[dq2 depmap]| | |]; cbn [rbind]; try reflexivity.
-  apply phase2_nil. exact H.
-Qed.
-
-(* ---- C08-F1 / C08-F3 witnesses --------------------------------------------------------- *)
+(* ---- the install_if loop (fixed by c03e0c0): one answer, members and order ------------
+   Until c03e0c0 GetPackageWithDependencies ranged over the Go map `added` while
+   inserting into it: the ORDER of the install_if packages followed the map
+   iteration (C08-F1) and whether a chained install_if package was installed at
+   all depended on whether the iteration reached the key inserted on the way
+   (C08-F3).  The loop now walks the dependency list by index, appended entries
+   included; Model/Resolver.v transcribes that and has no iteration-order
+   parameter left.  What can be said about it beyond "it is a function":
+   (1) the dependency list the loop starts with is a prefix of its result — the
+       install_if packages come after the dependency closure, in the order in
+       which the entries that trigger them stand in the list;
+   (2) it is chain-complete (Proofs/ResolveInstallIf.v, [iif_loop_complete]);
+   (3) the old witnesses have one answer (below). *)
 Definition P (n v : string) (deps iif : list string) : Resolver.pkg :=
   {| Resolver.p_name := n; Resolver.p_version := v; Resolver.p_origin := ""; Resolver.p_deps := deps;
      Resolver.p_provides := []; Resolver.p_install_if := iif; Resolver.p_prio := 0; Resolver.p_pin := ""; Resolver.p_repo := "r" |}.
 
+(* was C08-F1: w -> a, b; a-x install_if a; b-x install_if b *)
 Definition f1_universe : Resolver.universe :=
   [P "w" "1" ["a"; "b"] []; P "a" "1" [] []; P "b" "1" [] []; P "a-x" "1" [] ["a"]; P "b-x" "1" [] ["b"]].
 
-(* the keys of `added` when the range loop starts *)
-Definition added_keys (U : Resolver.universe) (w : string) : res (list string) :=
+(* the dependency list and the keys of `added` when the install_if loop starts *)
+Definition loop_start (U : Resolver.universe) (w : string) : res (list Resolver.pid * list string) :=
   let R := Resolver.new_resolver U in
   match Resolver.get_pkg_core R (Resolver.cook_str w) [] [] [] with
-  | Ok (_, _, _, _, added) => Ok (List.map fst added)
+  | Ok (_, _, _, l, added) => Ok (l, List.map fst added)
   | Err => Err | Panic => Panic | OutOfFuel => OutOfFuel
   end.
 
-(* two legal iteration orders of the same map, two install orders *)
-Lemma order_deterministic_refuted :
-  added_keys f1_universe "w" = Ok ["a"; "b"] /\
-  Resolver.legal_sched_b ["a"; "b"] ["a"; "b"] = true /\ Resolver.legal_sched_b ["a"; "b"] ["b"; "a"] = true /\
-  Resolver.resolve f1_universe ["w"] [] [["a"; "b"]] = Ok [1; 2; 3; 4; 0] /\
-  Resolver.resolve f1_universe ["w"] [] [["b"; "a"]] = Ok [1; 2; 4; 3; 0].
-Proof. vm_compute. repeat split. Qed.
+Lemma f1_one_answer :
+  loop_start f1_universe "w" = Ok ([1; 2], ["a"; "b"]) /\
+  Resolver.resolve f1_universe ["w"] [] = Ok [1; 2; 3; 4; 0].
+Proof. vm_compute. split; reflexivity. Qed.
 
+(* was C08-F3: w -> a; b install_if a; c install_if b.  b is appended during the
+   loop and visited by it: c is always installed *)
 Definition f3_universe : Resolver.universe :=
   [P "w" "1" ["a"] []; P "a" "1" [] []; P "c" "1" [] ["b"]; P "b" "1" [] ["a"]].
 
-(* b is inserted into `added` during the range; whether the iteration reaches
-   the new key decides whether c is installed: the MEMBERS differ *)
-Lemma install_if_members_refuted :
-  added_keys f3_universe "w" = Ok ["a"] /\
-  Resolver.legal_sched_b ["a"] ["a"] = true /\ Resolver.legal_sched_b ["a"] ["a"; "b"] = true /\
-  Resolver.resolve f3_universe ["w"] [] [["a"]] = Ok [1; 3; 0] /\
-  Resolver.resolve f3_universe ["w"] [] [["a"; "b"]] = Ok [1; 3; 2; 0].
-Proof. vm_compute. repeat split. Qed.
+Lemma f3_one_answer :
+  loop_start f3_universe "w" = Ok ([1], ["a"]) /\
+  Resolver.resolve f3_universe ["w"] [] = Ok [1; 3; 2; 0].
+Proof. vm_compute. split; reflexivity. Qed.
+
+(* the full statement: nothing but (U, world, dq0) enters a resolution *)
+Lemma order_deterministic : forall U world dq0 r1 r2,
+  Resolver.resolve U world dq0 = r1 -> Resolver.resolve U world dq0 = r2 -> r1 = r2.
+Proof. intros U world dq0 r1 r2 <- <-. reflexivity. Qed.
 
 (* ---- the concrete resolver core --------------------------------------------------------- *)
-Lemma resolve_with_sel_nil : forall R world dq0 scheds,
-  resolve_with_sel R world dq0 [] scheds = Resolver.resolve_with R world dq0 scheds.
+Lemma resolve_with_sel_nil : forall R world dq0,
+  resolve_with_sel R world dq0 [] = Resolver.resolve_with R world dq0.
 Proof. reflexivity. Qed.
 
 Definition lift_res (u : universe) (ixs : list idxid) (r : res (list nat)) : res (list pid) :=
@@ -95,17 +66,17 @@ Definition lift_res (u : universe) (ixs : list idxid) (r : res (list nat)) : res
    call returns what the sequential resolver model returns for the resolver
    built from the call's own indexes, an empty selected, and the
    disqualification set of the call's own grouping. *)
-Lemma resolver_history_independent : forall u scheds fsel fdq hist c,
+Lemma resolver_history_independent : forall u fsel fdq hist c,
   GroupingCompatible (dq_difference u) (dq_key u) hist c ->
-  result_after (mk_names_of u) (mk_iif_of u) (dq_difference u) (dq_key u) _ (resolver_core u scheds fsel fdq) true hist c =
+  result_after (mk_names_of u) (mk_iif_of u) (dq_difference u) (dq_key u) _ (resolver_core u fsel fdq) true hist c =
   lift_res u (cl_indexes c)
     (Resolver.resolve_with
        (resolver_of_view u (fresh_view (mk_names_of u) (mk_iif_of u) (dq_difference u) c (cl_archs c)))
-       (cl_world c) (flat_pids u (cl_indexes c) (dq_difference u (cl_archs c))) scheds).
+       (cl_world c) (flat_pids u (cl_indexes c) (dq_difference u (cl_archs c)))).
 Proof.
-  intros u scheds fsel fdq hist c G. unfold resolver_core.
+  intros u fsel fdq hist c G. unfold resolver_core.
   rewrite (result_of_pure_core (mk_names_of u) (mk_iif_of u) (dq_difference u) (dq_key u) _
-             (resolver_f u scheds fsel fdq) Err hist c G).
+             (resolver_f u fsel fdq) Err hist c G).
   reflexivity.
 Qed.
 
@@ -121,99 +92,3 @@ Lemma resolver_of_view_roundtrip_example :
   = Resolver.new_resolver (flatten rt_universe [1; 0]).
 Proof. vm_compute. reflexivity. Qed.
 
-(* ---- one trigger event per loop: the iteration order is irrelevant -------------------
-   [st0] = (deps, added) when the range loop starts. Suppose a single visit
-   either changes nothing or leads to ONE state [st1], and [st1] is absorbing
-   (no visit changes it): "at most one install_if event can happen in this
-   loop". Then every schedule that contains the initial keys ends in the same
-   state. *)
-Definition iif_state := (list Resolver.pid * list (string * Resolver.pid))%type.
-
-Definition SingleTrigger (R : Resolver.resolver) (st0 st1 : iif_state) : Prop :=
-  (forall key, Resolver.iif_visit R key st0 = st0 \/ Resolver.iif_visit R key st0 = st1) /\
-  (forall key, Resolver.iif_visit R key st1 = st1).
-
-Definition run (R : Resolver.resolver) (sched : list string) (st : iif_state) : iif_state :=
-  fold_left (fun st key => Resolver.iif_visit R key st) sched st.
-
-Lemma run_absorbing : forall R st1 sched, (forall key, Resolver.iif_visit R key st1 = st1) -> run R sched st1 = st1.
-Proof.
-  intros R st1 sched H. induction sched as [|k s IH]; [reflexivity|]. unfold run in *. cbn [fold_left]. rewrite H. exact IH.
-Qed.
-
-Lemma run_single : forall R st0 st1 sched, SingleTrigger R st0 st1 ->
-  (run R sched st0 = st0 /\ forall key, In key sched -> Resolver.iif_visit R key st0 = st0) \/
-  (run R sched st0 = st1 /\ exists key, In key sched /\ Resolver.iif_visit R key st0 = st1).
-Proof.
-  intros R st0 st1 sched [H0 H1]. induction sched as [|k s IH].
-  - left. split; [reflexivity | intros key []].
-  - unfold run. cbn [fold_left]. fold (run R s (Resolver.iif_visit R k st0)).
-    destruct (H0 k) as [E|E]; rewrite E.
-    + destruct IH as [[A B]|[A [key [I T]]]].
-      * left. split; [exact A|]. intros key [<-|I]; [exact E | apply B; exact I].
-      * right. split; [exact A|]. exists key. split; [right; exact I | exact T].
-    + right. split; [apply run_absorbing; exact H1|]. exists k. split; [left; reflexivity | exact E].
-Qed.
-
-(* a visit of a key that is not in `added` does nothing *)
-Lemma visit_absent : forall R key deps added,
-  Resolver.alookup key added = None -> Resolver.iif_visit R key (deps, added) = (deps, added).
-Proof. intros R key deps added H. unfold Resolver.iif_visit. rewrite H. reflexivity. Qed.
-
-Lemma mem_str_in : forall k l, Resolver.mem_str k l = true <-> In k l.
-Proof.
-  intros k l. unfold Resolver.mem_str. rewrite existsb_exists. split.
-  - intros [x [I E]]. apply String.eqb_eq in E. subst. exact I.
-  - intro I. exists k. split; [exact I | apply String.eqb_refl].
-Qed.
-
-Lemma alookup_none_not_key : forall {A} key (m : list (string * A)),
-  ~ In key (List.map fst m) -> Resolver.alookup key m = None.
-Proof.
-  intros A key. induction m as [|[k v] m IH]; intro H; [reflexivity|]. cbn [Resolver.alookup].
-  destruct (String.eqb k key) eqn:E.
-  - apply String.eqb_eq in E. subst. exfalso. apply H. left. reflexivity.
-  - apply IH. intro I. apply H. right. exact I.
-Qed.
-
-Theorem iif_loop_single_trigger : forall R deps added st1 s1 s2,
-  SingleTrigger R (deps, added) st1 ->
-  Resolver.legal_sched_b (List.map fst added) s1 = true ->
-  Resolver.legal_sched_b (List.map fst added) s2 = true ->
-  Resolver.iif_loop R s1 deps added = Resolver.iif_loop R s2 deps added.
-Proof.
-  intros R deps added st1 s1 s2 S L1 L2. unfold Resolver.iif_loop.
-  fold (run R s1 (deps, added)). fold (run R s2 (deps, added)).
-  assert (K : forall s, Resolver.legal_sched_b (List.map fst added) s = true ->
-                        forall key, In key (List.map fst added) -> In key s).
-  { intros s L key I. unfold Resolver.legal_sched_b in L. apply andb_true_iff in L. destruct L as [L _].
-    rewrite forallb_forall in L. apply mem_str_in. apply L. exact I. }
-  (* a triggering key is an initial key *)
-  assert (T : forall key, Resolver.iif_visit R key (deps, added) <> (deps, added) -> In key (List.map fst added)).
-  { intros key N. destruct (in_dec string_dec key (List.map fst added)) as [I|I]; [exact I|].
-    exfalso. apply N. apply visit_absent. apply alookup_none_not_key. exact I. }
-  assert (D : {st1 = (deps, added)} + {st1 <> (deps, added)}).
-  { repeat decide equality. }
-  destruct (run_single R (deps, added) st1 s1 S) as [[A1 B1]|[A1 [k1 [I1 T1]]]];
-  destruct (run_single R (deps, added) st1 s2 S) as [[A2 B2]|[A2 [k2 [I2 T2]]]]; rewrite A1, A2; try reflexivity.
-  - (* s1 met no trigger, s2 did: then the trigger changed nothing *)
-    destruct D as [E|N]; [rewrite E; reflexivity|].
-    exfalso. apply N. rewrite <- T2. apply B1. apply (K s1 L1). apply T. rewrite T2. exact N.
-  - destruct D as [E|N]; [rewrite E; reflexivity|].
-    exfalso. apply N. rewrite <- T1. apply B2. apply (K s2 L2). apply T. rewrite T1. exact N.
-Qed.
-
-(* the hypothesis is satisfiable in a universe WITH a triggered install_if package *)
-Definition st_universe : Resolver.universe := [P "w" "1" ["a"] []; P "a" "1" [] []; P "a-x" "1" [] ["a"]].
-Lemma single_trigger_example :
-  let R := Resolver.new_resolver st_universe in
-  (exists dq sel i, Resolver.get_pkg_core R (Resolver.cook_str "w") [] [] [] = Ok (dq, sel, i, [1], [("a", 1)])) /\
-  SingleTrigger R ([1], [("a", 1)]) ([1; 2], [("a", 1); ("a-x", 2)]).
-Proof.
-  split; [eexists _, _, _; vm_compute; reflexivity|]. split; intro key.
-  - destruct (string_dec key "a") as [->|N]; [right; vm_compute; reflexivity|].
-    left. apply visit_absent. apply alookup_none_not_key. cbn. intros [H|[]]. congruence.
-  - destruct (string_dec key "a") as [->|N1]; [vm_compute; reflexivity|].
-    destruct (string_dec key "a-x") as [->|N2]; [vm_compute; reflexivity|].
-    apply visit_absent. apply alookup_none_not_key. cbn. intros [H|[H|[]]]; congruence.
-Qed.
